@@ -695,6 +695,7 @@ func runHistCase(c *HistCase, prop string) (*caseOut, error) {
 	faultStep := -1
 	var s0, b0 []string
 	inTx := false
+	swapped := false // another actor replaced a directory by a symlink in this transaction (C13 footprint oracle)
 	var planted []string     // C13: (path, content) pairs planted in the backup directory
 	var plantedBase []string // C13: (path, content) pairs planted in directories the transaction created
 	foreignBackup := false   // foreign content was planted in the backup directory (C13): Rollback may report it
@@ -744,6 +745,7 @@ func runHistCase(c *HistCase, prop string) (*caseOut, error) {
 		foreignBackup = false
 		planted = nil
 		plantedBase = nil
+		swapped = false
 	}
 	viol := func(p, what string) {
 		// the snapshot oracles are reported under the property whose scenario this run exercises
@@ -1056,8 +1058,91 @@ func runHistCase(c *HistCase, prop string) (*caseOut, error) {
 					}
 				}
 			}
+			// C13 footprint oracle after another actor put a symlink where a directory was: whatever the
+			// tracked map is lexically unrelated to (not a tracked path, not above one, not below one) must be
+			// exactly what it was when Rollback began.  Props/C13L.lean proves this when no proper ancestor of
+			// a tracked path is a symlink, in the base and in the backup; where one is, Rollback goes THROUGH
+			// it (K-link-over-tracked, external-actor variant)
+			var fpPre []string
+			var fpTracked, fpTrackedFiles []string
+			fpLinkAbove := false
+			if swapped && len(c.Faults) == 0 {
+				fpPre = blankDirTimes(e.rc.Dump(e.baseSub))
+				for t, fi := range e.bfs.Map() {
+					fpTracked = append(fpTracked, path.Clean("/"+t))
+					if fi != nil && fi.Mode().IsRegular() {
+						fpTrackedFiles = append(fpTrackedFiles, path.Clean("/"+t))
+					}
+					for _, side := range []string{e.baseSub, e.bakSub} {
+						if side == e.bakSub && fi == nil {
+							continue
+						}
+						ch := chainOf(path.Clean("/" + t))
+						for _, anc := range ch[:len(ch)-1] {
+							if li, err := os.Lstat(e.rc.Root + side + anc); err == nil && li.Mode()&fs.ModeSymlink != 0 {
+								fpLinkAbove = true
+							}
+						}
+					}
+				}
+			}
 			rerr := e.bfs.Rollback()
 			e.onPrim = prevPrim
+			if fpPre != nil {
+				related := func(q string) bool {
+					// the footprint of Props.C13: a tracked path itself, the ancestors of a tracked path
+					// (MkdirAll of a tracked directory), and what lies below a path tracked as a regular file
+					for _, t := range fpTracked {
+						if q == t || strings.HasPrefix(t, strings.TrimSuffix(q, "/")+"/") {
+							return true
+						}
+					}
+					for _, t := range fpTrackedFiles {
+						if strings.HasPrefix(q, t+"/") {
+							return true
+						}
+					}
+					return false
+				}
+				idx := func(d []string) map[string]string {
+					m := map[string]string{}
+					for k := 0; k+6 < len(d); k += 7 {
+						m[d[k]] = strings.Join(d[k+1:k+7], "|")
+					}
+					return m
+				}
+				pre, post := idx(fpPre), idx(blankDirTimes(e.rc.Dump(e.baseSub)))
+				var diffs []string
+				for q, v := range pre {
+					if !related(q) && post[q] != v {
+						diffs = append(diffs, fmt.Sprintf("%s: %s -> %s", q, v, post[q]))
+					}
+				}
+				for q, v := range post {
+					if _, was := pre[q]; !was && !related(q) {
+						diffs = append(diffs, fmt.Sprintf("%s: (absent) -> %s", q, v))
+					}
+				}
+				out.count("c13.footprint-checked")
+				if len(diffs) > 0 {
+					sort.Strings(diffs)
+					if len(diffs) > 4 {
+						diffs = diffs[:4]
+					}
+					v := Violation{Property: "C13", What: fmt.Sprintf("Rollback (returned %v) changed entries no operation named and no tracked path is related to: %s", rerr, strings.Join(diffs, "; ")), Case: c}
+					lab := map[string]bool{}
+					for k, b := range out.labels {
+						lab[k] = b
+					}
+					if fpLinkAbove {
+						lab["link-over-tracked"] = true
+					}
+					if k := knownClass("C13", lab); k != "" {
+						v.Known = k
+					}
+					out.viol = append(out.viol, v)
+				}
+			}
 			if len(c.Faults) > 0 && !skipOracle {
 				s1f := blankDirTimes(e.rc.Dump(e.baseSub))
 				if e.fired {
@@ -1170,8 +1255,27 @@ func runHistCase(c *HistCase, prop string) (*caseOut, error) {
 			if st.Arg[0] == "backup" {
 				sub = e.bakSub
 			}
-			out.b.Add(tag, line("os.creat", "", modelRoot+sub+st.Arg[1], st.Arg[2]), line("ok", modelRoot+sub+st.Arg[1]))
-			if st.Arg[0] == "base" && len(st.Arg) > 3 {
+			if st.Arg[1] == "swap" {
+				out.b.Add(tag+" rm", line("os.call", "", "removeall", modelRoot+sub+st.Arg[2]), line("ok"))
+				out.b.Add(tag+" ln", line("os.call", "", "symlink", st.Arg[3], modelRoot+sub+st.Arg[2]), line("ok"))
+				// what Rollback has to leave now is not the tree the transaction began with (the other actor
+				// deleted a subtree): the snapshot oracles are off, the footprint oracle below is on
+				skipOracle = true
+				originals = nil
+				foreignBackup = true
+				swapped = true
+				if st.Arg[0] == "backup" {
+					// the backup now aliases the base: Rollback reads a copy through a handle while it removes and
+					// re-creates the very entry behind it; the model's handles are path-keyed (DESIGN 7, "handles
+					// kept open across later operations"), so such a case is judged by the oracles only
+					out.oracleOnly = true
+				}
+				out.count("ext.swap." + st.Arg[0])
+			} else {
+				out.b.Add(tag, line("os.creat", "", modelRoot+sub+st.Arg[1], st.Arg[2]), line("ok", modelRoot+sub+st.Arg[1]))
+			}
+			if st.Arg[1] == "swap" {
+			} else if st.Arg[0] == "base" && len(st.Arg) > 3 {
 				// a foreign file inside a directory the transaction created: Rollback cannot remove
 				// that directory (and says so); the file itself was never named and must survive
 				plantedBase = append(plantedBase, st.Arg[1], st.Arg[2])
@@ -1185,7 +1289,9 @@ func runHistCase(c *HistCase, prop string) (*caseOut, error) {
 				planted = append(planted, st.Arg[1], st.Arg[2])
 				foreignBackup = true
 			}
-			out.count("ext." + st.Arg[0])
+			if st.Arg[1] != "swap" {
+				out.count("ext." + st.Arg[0])
+			}
 		case st.Do == "force":
 			// C17: a successful ForceBackup(p) of a non-directory moves the baseline at p to "now"
 			fp := path.Clean("/" + st.Arg[0])
@@ -1799,6 +1905,11 @@ func genHistCase(r *RNG, g HistGen, umask int) *HistCase {
 				} else if side == "backup" && r.Chance(1, 2) {
 					where = "@created" // in the backup tree, at the path of something the transaction created (tracked as "did not exist": BackupFS never puts anything there)
 				}
+				if g.Layering == "disjoint" && r.Chance(1, 6) {
+					// another actor REPLACES A DIRECTORY BY A SYMLINK to another directory: in the base, or a
+					// directory copy in the backup by a link into the base (Props.C13.symlinked_ancestor_in_*)
+					where = "@swapdir"
+				}
 				c.Steps = append(c.Steps, Step{Do: "ext", Arg: []string{side, where, fmt.Sprintf("ext-%d", r.Intn(1000))}})
 			}
 		}
@@ -2017,6 +2128,12 @@ func (e *histEnv) applyExt(arg []string) error {
 	if arg[0] == "backup" {
 		sub = e.bakSub
 	}
+	if arg[1] == "swap" {
+		if err := os.RemoveAll(e.rc.Root + sub + arg[2]); err != nil {
+			return err
+		}
+		return os.Symlink(arg[3], e.rc.Root+sub+arg[2])
+	}
 	return os.WriteFile(e.rc.Root+sub+arg[1], []byte(arg[2]), 0o666)
 }
 
@@ -2149,6 +2266,40 @@ var filepathEvalSymlinks = filepath.EvalSymlinks
 
 // resolveExt turns the "@dir" placeholder into a fresh name inside a directory that exists now.
 func (e *histEnv) resolveExt(arg []string, i int, initial []Entry) []string {
+	if arg[1] == "@swapdir" {
+		// arg -> [side, "swap", D, target]: D a real directory of that tree (not its root), target a
+		// RELATIVE path from D's parent to another real directory E of the BASE tree (the same text on
+		// the real disk and in the model); falls back to planting a file when there is no such pair
+		sub := e.baseSub
+		if arg[0] == "backup" {
+			sub = e.bakSub
+		}
+		realDirs := func(sub string) []string {
+			var out []string
+			d := e.rc.Dump(sub)
+			for k := 0; k+6 < len(d); k += 7 {
+				if d[k+1] == "dir" && d[k] != "/" && !strings.Contains(d[k], "zz") {
+					if rp, err := filepath.EvalSymlinks(e.rc.Root + sub + d[k]); err == nil && rp == e.rc.Root+sub+d[k] {
+						out = append(out, d[k])
+					}
+				}
+			}
+			return out
+		}
+		ds, es := realDirs(sub), realDirs(e.baseSub)
+		for off := 0; off < len(ds); off++ {
+			D := ds[(i+off)%len(ds)]
+			for off2 := 0; off2 < len(es); off2++ {
+				E := es[(i/2+off2)%len(es)]
+				if sub == e.baseSub && (E == D || strings.HasPrefix(E, D+"/") || strings.HasPrefix(D, E+"/")) {
+					continue
+				}
+				from := sub + path.Dir(D)
+				return []string{arg[0], "swap", D, relPath(from, e.baseSub+E)}
+			}
+		}
+		arg = []string{arg[0], "@dir", arg[2]}
+	}
 	if arg[1] != "@dir" && arg[1] != "@newdir" && arg[1] != "@created" {
 		return arg
 	}
